@@ -21,7 +21,7 @@ def sweep_cases(ctx):
     out = []
     ec = EC_KEYS
     keys = ec + (["RSA-1024"] if ctx.quick else ["RSA-1024", "RSA-2048"])
-    origins = ["gopki", "stdlib", "embedded-curve", "no-algid-params"]
+    origins = ["gopki", "stdlib", "embedded-curve", "no-algid-params", "short-scalar", "short-scalar-no-point"]
 
     def sig_for(k):
         return "RSAwithSHA256" if k.startswith("RSA") else "ECDSAwithSHA256"
@@ -38,7 +38,7 @@ def sweep_cases(ctx):
 
     for k in keys:
         for origin in origins:
-            if origin in ("embedded-curve", "no-algid-params") and k.startswith("RSA"):
+            if origin in ("embedded-curve", "no-algid-params", "short-scalar", "short-scalar-no-point") and k.startswith("RSA"):
                 continue
             if origin == "stdlib" and k.startswith("brainpool"):
                 origin_make = {"kind": "key", "key": k, "variant": ""}          # hand-built brainpool PKCS#8 (package ecv)
@@ -107,7 +107,7 @@ def run(ctx, replay=None):
                           {"kind": "gen-history", "case": c, "what": cl["what"], "step": cl["step"], "alias": cl["alias"], "class": c["tag"]["class"]})
     steps_run = sum(len(o["hist"]) - 1 for o in obs)
     extra = {"sweep_histories": len(cs), "sweep_evaluations": steps_run, "sweep_failed_steps": sum(1 for o in obs for h in o["hist"] if h["result"] not in ("ok", "initial")),
-             "sweep": "key types x origins {gopki, standard PKCS#8 / hand-built brainpool PKCS#8, curve repeated inside ECPrivateKey, no AlgorithmIdentifier parameters, request} x "
+             "sweep": "key types x origins {gopki, standard PKCS#8 / hand-built brainpool PKCS#8, curve repeated inside ECPrivateKey, no AlgorithmIdentifier parameters, scalar with leading zero octets written minimal (with / without the public point), request} x "
                       "8 regeneration steps (changed, newer, all, keyAlgorithm same family, other family, removed, issuer regenerated, no-op)"}
     inv = ["TypeInv", "KeyImpliesCert"]
     if ctx.quick:
